@@ -331,6 +331,15 @@ func c17(run *ev.Run, tier string) {
 			run.Violate("C17/published-schema-differs-from-command-output/over-existing-file", map[string]any{"published_len": len(published), "written_len": len(got)})
 		}
 	}
+	// a schema file that could not be written is not reported as written: the
+	// published file would silently stop being what the command emits
+	if _, err := os.Stat("/dev/full"); err == nil {
+		_, _, code, _ := runCmd(nil, dir, nil, bin, "jsonschema", "-o", "/dev/full")
+		run.Case("published-file|target-device-full", true)
+		if code == 0 {
+			run.Violate("C17/schema-write-failure-reported-as-success", map[string]any{"command": "nfpm jsonschema -o /dev/full", "exit": code})
+		}
+	}
 	var sd schemaDoc
 	if err := json.Unmarshal(so, &sd.root); err != nil {
 		run.Violate("C17/schema-is-not-json", map[string]any{"error": err.Error()})
@@ -468,6 +477,19 @@ func c17(run *ev.Run, tier string) {
 		s := base()
 		s.VersionSchema = vs
 		docs = append(docs, c17Doc{"enum|version_schema|" + vs, s.YAML(), formats})
+	}
+	{
+		// documented use of environment references inside settings the schema
+		// constrains: the document (with the placeholder) is what an editor validates
+		s := base()
+		s.Deb.Sig = gen.Sig{KeyFile: testKey("privkey_unprotected.asc"), KeyID: "${VERIF_SIGNING_KEY_ID}"}
+		s.RPM.Sig = gen.Sig{KeyFile: testKey("privkey_unprotected.asc"), KeyID: "${VERIF_SIGNING_KEY_ID}"}
+		s.APK.Sig = gen.Sig{KeyFile: testKey("rsa_unprotected.priv"), KeyName: "verif", KeyID: "${VERIF_SIGNING_KEY_ID}"}
+		docs = append(docs, c17Doc{"placeholder|signature.key_id", s.YAML(), []string{"deb", "rpm", "apk"}})
+		s2 := base()
+		s2.Release, s2.Prerelease = "${VERIF_RELEASE}", "${VERIF_PRE}"
+		s2.Depends = []string{"${VERIF_DEP}", "fixed"}
+		docs = append(docs, c17Doc{"placeholder|release+prerelease+depends", s2.YAML(), formats})
 	}
 	{
 		// list members with their optional keys left out (an alternative without
